@@ -3,7 +3,8 @@ import Driver.Util
 /-! Line-protocol driver for the `Executor` model (C04).
 
     exec <dd:0|1> <dflt:idx|-> <tasks|-> <req|->
-      tasks = `;`-separated, task number i is the i-th entry: `cls:key:sig:pre:post`, sig = `+`-separated `name=default` | `name!`
+      tasks = `;`-separated, task number i is the i-th entry: `cls:key:sig:pre:post`, sig = `pk~ko~V~K`: positional-or-keyword and keyword-only
+      parameters (`+`-separated `name=default` | `name!`), V/K = 1 iff the body takes `*rest` / `**kw`
       pre/post = `,`-separated calls `idx/pos/kw` (may only refer to EARLIER tasks)
       pos = `+`-separated values, kw = `+`-separated `name=value`
       value = `i<int>` | `s<char codes>`; name = char codes (decimal, `.`-separated)
@@ -38,10 +39,15 @@ def decParam (s : String) : Param :=
   | [k, v] => ⟨decChars k, some (decVal v)⟩
   | _ => ⟨decChars ((s.dropEnd 1).toString), none⟩
 
-def decSigs (s : String) : List (List Param) :=
+def decSig (sg : String) : Sig :=
+  match sg.splitOn "~" with
+  | [pk, ko, v, k] => ⟨(splitNE pk "+").map decParam, (splitNE ko "+").map decParam, v == "1", k == "1"⟩
+  | _ => .plain []
+
+def decSigs (s : String) : List Sig :=
   (splitNE s ";").map (fun e => match e.splitOn ":" with
-    | [_, _, sg, _, _] => (splitNE sg "+").map decParam
-    | _ => [])
+    | [_, _, sg, _, _] => decSig sg
+    | _ => .plain [])
 
 def decTasks (s : String) : Option (Array TaskT) :=
   (splitNE s ";").foldlM (fun (built : Array TaskT) e =>
@@ -79,7 +85,7 @@ def encOcc (o : Occ) : String :=
   toString o.id ++ "/" ++ "+".intercalate (o.args.pos.map encVal) ++ "/" ++
     "+".intercalate ((sortKW o.args.kw).map (fun kv => encChars kv.1 ++ "=" ++ encVal kv.2))
 
-def hypOk (sig : Nat → List Param) (l : List Occ) : Bool :=
+def hypOk (sig : Nat → Sig) (l : List Occ) : Bool :=
   l.all (fun c => wellCalled (sig c.id) c.args && l.all (fun d => (c.cls == d.cls) == (c.id == d.id)))
 
 def opt (s : String) : String := if s == "-" then "" else s
@@ -95,7 +101,7 @@ def step (line : String) : String :=
       | some rq =>
         let d : Option TaskT := if dflt == "-" then none else (dflt.toNat?.bind (fun n => built[n]?))
         let sigs := decSigs (opt tasks)
-        let sig : Nat → List Param := fun i => sigs.getD i []
+        let sig : Nat → Sig := fun i => sigs.getD i (.plain [])
         let r := execute sig (dd == "1") d rq
         ",".intercalate (r.1.map encOcc) ++ " | " ++
           ",".intercalate (r.2.map (fun kv => toString kv.1 ++ "=" ++ toString kv.2)) ++ " | " ++
